@@ -87,3 +87,48 @@ pub const REGISTRY: &[&str] = &[
     "SimplifiedLayerNormalization", "BiasGelu", "FastGelu", "com.microsoft.Gelu", "GroupQueryAttention", "MatMulNBits",
     "MultiHeadAttention", "QuickGelu", "SkipLayerNormalization", "com.microsoft.RotaryEmbedding", "SkipSimplifiedLayerNormalisation",
 ];
+
+/// Record in the evidence how many registry operators (DESIGN.md Appendix A)
+/// were exercised, by which class label prefix.
+pub fn record_operator_coverage(ck: &mut vcore::Check, prefix: &str, key: &str) {
+    record_coverage_of(ck, REGISTRY, prefix, key)
+}
+
+/// Registry operators whose `in_place_inputs()` is non-empty (from the
+/// `fn in_place_inputs` implementations under /repo/src/ops).
+pub const IN_PLACE_CAPABLE: &[&str] = &[
+    // unary_elementwise.rs impl_operator!
+    "Abs", "Acos", "Asin", "Atan", "Acosh", "Asinh", "Atanh", "Ceil", "Cos", "Cosh", "Elu", "Erf", "Exp", "Floor", "Gelu", "HardSigmoid",
+    "HardSwish", "LeakyRelu", "Log", "Neg", "Reciprocal", "Relu", "Round", "Sigmoid", "Swish", "Sin", "Sinh", "Sign", "Sqrt", "Softplus",
+    "Tan", "Tanh", "Clip", "Not", "com.microsoft.Gelu", "QuickGelu",
+    // binary_elementwise.rs
+    "Add", "Div", "Mul", "Pow", "Sub",
+    // norm.rs
+    "BatchNormalization", "InstanceNormalization", "LpNormalization", "LogSoftmax", "Softmax",
+    // layout.rs, concat.rs, convert.rs, identity.rs, resize.rs, slice.rs
+    "Expand", "Flatten", "Reshape", "Squeeze", "Unsqueeze", "Concat", "Tile", "Cast", "CastLike", "Identity", "Resize", "Slice",
+    // sequence.rs
+    "SequenceErase", "SequenceInsert",
+    // attention
+    "Attention", "MultiHeadAttention", "GroupQueryAttention",
+];
+
+pub fn record_coverage_of(ck: &mut vcore::Check, ops: &[&str], prefix: &str, key: &str) {
+    let mut covered = Vec::new();
+    let mut missing = Vec::new();
+    for op in ops {
+        if ck.class_count(&format!("{prefix}{op}")) > 0 {
+            covered.push(op.to_string());
+        } else {
+            missing.push(op.to_string());
+        }
+    }
+    ck.extra(
+        key,
+        serde_json::json!({
+            "operators_in_scope": ops.len(),
+            "covered": covered.len(),
+            "not_covered": missing,
+        }),
+    );
+}
